@@ -678,3 +678,133 @@ Qed.
 
 Lemma match_created_elide : forall e, match_created (print_elide e) = None.
 Proof. intros [|n]; reflexivity. Qed.
+
+(* ------------------------------------------------------------------ *)
+(* 6. symbols on a line: no blank, no line break                       *)
+(* ------------------------------------------------------------------ *)
+
+Definition nosp (c : N) : bool := negb ((c =? 9) || (c =? 10) || (c =? 13) || (c =? 32)).
+
+Lemma hexd_nosp : forall d, d < 16 -> nosp (hexd d) = true.
+Proof. intros d H. apply lt16_cases in H. each16 H. Qed.
+
+Lemma ptp_nosp : forall p, forallb (fun c => c <? 256) p = true -> forallb nosp (path_to_prefix p) = true.
+Proof.
+  induction p as [|c p IH]; intros H; [reflexivity|].
+  cbn [forallb] in H. apply andb_true_iff in H as [Hc Hp]. apply N.ltb_lt in Hc.
+  cbn [path_to_prefix]. rewrite forallb_app, (IH Hp), andb_true_r.
+  destruct (must_escape c) eqn:Hesc.
+  - cbn [orb forallb]. rewrite !hexd_nosp; [reflexivity|apply N.mod_lt; lia|].
+    apply N.div_lt_upper_bound; lia.
+  - cbn [orb]. assert (Hc32 : nosp c = true).
+    { unfold must_escape in Hesc. apply orb_false_iff in Hesc as [Hesc _].
+      apply orb_false_iff in Hesc as [Hesc _]. apply orb_false_iff in Hesc as [Hesc _].
+      apply N.leb_gt in Hesc. unfold nosp.
+      replace (c =? 9) with false by (symmetry; apply N.eqb_neq; lia).
+      replace (c =? 10) with false by (symmetry; apply N.eqb_neq; lia).
+      replace (c =? 13) with false by (symmetry; apply N.eqb_neq; lia).
+      replace (c =? 32) with false by (symmetry; apply N.eqb_neq; lia). reflexivity. }
+    destruct ((c =? 46) && negb (has_slash p)) eqn:Hdot.
+    + cbn [forallb]. rewrite !hexd_nosp; [reflexivity|apply N.mod_lt; lia|].
+      apply N.div_lt_upper_bound; lia.
+    + cbn [forallb]. rewrite Hc32. reflexivity.
+Qed.
+
+Lemma name_nosp : forall n, wf_name n = true -> forallb nosp n = true.
+Proof.
+  intros n. unfold wf_name. apply forallb_impl. intros x Hx.
+  unfold name_byte_ok in Hx. unfold nosp.
+  apply negb_true_iff in Hx. apply negb_true_iff.
+  apply orb_false_iff in Hx as [Hx _]. apply orb_false_iff in Hx as [Hx _]. exact Hx.
+Qed.
+
+Lemma sym_raw_nosp : forall s, wf_sym s = true -> forallb nosp (sym_raw s) = true.
+Proof.
+  intros [p n|n] H; cbn [wf_sym sym_raw] in *.
+  - apply andb_true_iff in H as [Hp Hn].
+    rewrite !forallb_app, (ptp_nosp p Hp), (name_nosp n Hn). reflexivity.
+  - apply andb_true_iff in H as [Hn _]. apply name_nosp. exact Hn.
+Qed.
+
+Lemma sym_raw_nonempty : forall s, wf_sym s = true -> sym_raw s <> [].
+Proof.
+  intros [p n|n] H; cbn [wf_sym sym_raw] in *.
+  - intros C. apply app_eq_nil in C as [_ C]. discriminate.
+  - apply andb_true_iff in H as [_ Hn]. destruct n; [discriminate|discriminate].
+Qed.
+
+Lemma nosp_no_byte : forall c s, nosp c = false -> forallb nosp s = true -> no_byte c s = true.
+Proof. intros c s. apply forallb_no_byte. Qed.
+
+(* a line that does not begin with a tab or a space is not the
+   "stack unavailable" line *)
+Lemma match_unavail_head : forall x t, nosp x = true -> match_unavail (x :: t) = false.
+Proof.
+  intros x t Hx. destruct x as [|p]; [reflexivity|].
+  do 6 (try destruct p as [p|p|]; try reflexivity; try discriminate).
+Qed.
+
+(* "<word> ..." is not a prefix of a blank-free text followed by '(' *)
+Lemma strip_prefix_blocked : forall a b r t,
+  no_byte 40 a = true -> no_byte 32 r = true ->
+  strip_prefix (a ++ 32 :: b) (r ++ 40 :: t) = None.
+Proof.
+  induction a as [|y a IH]; intros b r t Ha Hr.
+  - cbn [app]. destruct r as [|x r]; [reflexivity|].
+    rewrite no_byte_cons in Hr. apply andb_true_iff in Hr as [Hx _].
+    cbn [app strip_prefix]. apply negb_true_iff in Hx. rewrite N.eqb_sym, Hx. reflexivity.
+  - rewrite no_byte_cons in Ha. apply andb_true_iff in Ha as [Hy Ha].
+    destruct r as [|x r].
+    + cbn [app strip_prefix]. apply negb_true_iff in Hy. rewrite Hy. reflexivity.
+    + rewrite no_byte_cons in Hr. apply andb_true_iff in Hr as [_ Hr].
+      cbn [app strip_prefix]. destruct (N.eqb x y); [|reflexivity]. apply IH; assumption.
+Qed.
+
+Lemma match_created_func_line : forall s args el,
+  wf_sym s = true -> match_created (print_func_line s args el) = None.
+Proof.
+  intros s args el Hwf. unfold match_created, print_func_line.
+  change (s2b "created by ") with (s2b "created" ++ 32 :: s2b "by ").
+  change (s2b "(" ++ print_args args el ++ s2b ")") with (40 :: (print_args args el ++ s2b ")")).
+  rewrite strip_prefix_blocked; [reflexivity|reflexivity|].
+  apply nosp_no_byte; [reflexivity|apply sym_raw_nosp; exact Hwf].
+Qed.
+
+Lemma match_unavail_func_line : forall s args el,
+  wf_sym s = true -> match_unavail (print_func_line s args el) = false.
+Proof.
+  intros s args el Hwf. unfold print_func_line.
+  pose proof (sym_raw_nosp s Hwf) as Hns. pose proof (sym_raw_nonempty s Hwf) as Hne.
+  destruct (sym_raw s) as [|x r]; [congruence|].
+  cbn [forallb] in Hns. apply andb_true_iff in Hns as [Hx _].
+  cbn [app]. apply match_unavail_head. exact Hx.
+Qed.
+
+(* a line ending with ')' is not the "frames elided" marker *)
+Lemma is_frames_elided_rparen : forall body, is_frames_elided (body ++ [41]) = false.
+Proof.
+  intros body. unfold is_frames_elided. apply orb_false_iff. split.
+  - apply beq_neq. intros E.
+    change (s2b "...additional frames elided...") with (s2b "...additional frames elided.." ++ [46]) in E.
+    apply app_inj_tail in E as [_ E]. discriminate.
+  - destruct (has_suffix (body ++ [41]) (s2b " frames elided...")) eqn:Hs; [|apply andb_false_r].
+    apply has_suffix_spec in Hs.
+    change (s2b " frames elided...") with (s2b " frames elided.." ++ [46]) in Hs.
+    rewrite app_assoc in Hs. apply app_inj_tail in Hs as [_ E]. discriminate.
+Qed.
+
+Lemma is_frames_elided_func_line : forall s args el, is_frames_elided (print_func_line s args el) = false.
+Proof.
+  intros s args el. unfold print_func_line.
+  replace (sym_raw s ++ s2b "(" ++ print_args args el ++ s2b ")")
+    with ((sym_raw s ++ s2b "(" ++ print_args args el) ++ [41])
+    by (rewrite <- !app_assoc; reflexivity).
+  apply is_frames_elided_rparen.
+Qed.
+
+(* the "created by" line of a creator *)
+Lemma in_goroutine_text_nosp_last : forall gid, no_byte LF (in_goroutine_text gid) = true.
+Proof.
+  intros [n|]; [|reflexivity]. unfold in_goroutine_text.
+  rewrite no_byte_app. apply andb_true_iff. split; [reflexivity|]. apply dec_no_byte. reflexivity.
+Qed.
